@@ -129,7 +129,32 @@ func (w *World) canon(v ssa.Value) string { return (&canonizer{w: w}).c(v, true)
 func (w *World) canonFB(v ssa.Value) string { return (&canonizer{w: w, key: true}).c(v, false) }
 
 func unwrapLoadAlloc(v ssa.Value) ssa.Value {
-	// forward a load of a single-store local alloc
+	for i := 0; i < 8; i++ {
+		nv := unwrapLoadAlloc1(v)
+		if nv == v {
+			return v
+		}
+		v = nv
+	}
+	return v
+}
+
+// allocCaptured: the local is bound into a closure (so calls may modify it).
+func allocCaptured(al *ssa.Alloc) bool {
+	for _, r := range *al.Referrers() {
+		switch r.(type) {
+		case *ssa.Store, *ssa.UnOp, *ssa.DebugRef:
+		default:
+			return true
+		}
+	}
+	return false
+}
+
+// unwrapLoadAlloc1 forwards a load of a local variable to the value stored:
+// the latest store earlier in the same block (if no call could have changed
+// the local in between), or the only store if it dominates the load.
+func unwrapLoadAlloc1(v ssa.Value) ssa.Value {
 	u, ok := v.(*ssa.UnOp)
 	if !ok || u.Op != token.MUL {
 		return v
@@ -137,6 +162,31 @@ func unwrapLoadAlloc(v ssa.Value) ssa.Value {
 	al, ok := u.X.(*ssa.Alloc)
 	if !ok {
 		return v
+	}
+	captured := allocCaptured(al)
+	b := u.Block()
+	if b != nil {
+		idx := -1
+		for i, in := range b.Instrs {
+			if in == ssa.Instruction(u) {
+				idx = i
+				break
+			}
+		}
+		for i := idx - 1; i >= 0; i-- {
+			in := b.Instrs[i]
+			if st, ok := in.(*ssa.Store); ok && st.Addr == al {
+				return st.Val
+			}
+			if captured {
+				if _, isCall := in.(ssa.CallInstruction); isCall {
+					break
+				}
+				if _, isRD := in.(*ssa.RunDefers); isRD {
+					break
+				}
+			}
+		}
 	}
 	var st *ssa.Store
 	n := 0
@@ -146,10 +196,55 @@ func unwrapLoadAlloc(v ssa.Value) ssa.Value {
 			n++
 		}
 	}
-	if n == 1 && st.Block().Dominates(u.Block()) && st.Parent() == u.Parent() {
+	if n == 1 && !captured && st.Parent() == u.Parent() && st.Block().Dominates(u.Block()) && st.Block() != u.Block() {
 		return st.Val
 	}
 	return v
+}
+
+// localStores returns the values stored to a local variable.
+func localStores(al *ssa.Alloc) []ssa.Value {
+	var out []ssa.Value
+	for _, r := range *al.Referrers() {
+		if s, ok := r.(*ssa.Store); ok && s.Addr == al {
+			out = append(out, s.Val)
+		}
+	}
+	return out
+}
+
+// expandValues resolves v through phis and loads of locals to the set of
+// defining values (bounded).
+func expandValues(v ssa.Value) []ssa.Value {
+	var out []ssa.Value
+	seen := map[ssa.Value]bool{}
+	var rec func(v ssa.Value, d int)
+	rec = func(v ssa.Value, d int) {
+		v = unwrapLoadAlloc(v)
+		if seen[v] || d > 12 {
+			return
+		}
+		seen[v] = true
+		switch x := v.(type) {
+		case *ssa.Phi:
+			for _, e := range x.Edges {
+				rec(e, d+1)
+			}
+			return
+		case *ssa.UnOp:
+			if x.Op == token.MUL {
+				if al, ok := x.X.(*ssa.Alloc); ok {
+					for _, sv := range localStores(al) {
+						rec(sv, d+1)
+					}
+					return
+				}
+			}
+		}
+		out = append(out, v)
+	}
+	rec(v, 0)
+	return out
 }
 
 func (cz *canonizer) c(v ssa.Value, withBase bool) string {
